@@ -97,6 +97,8 @@ type Mixed struct {
 	// At holds scripted additions per height (features); ForceGraded makes a height carry a full OPR set.
 	At          map[uint32][]func(v *View, spec *forge.BlockSpec)
 	ForceGraded map[uint32]bool
+	// ForceUngraded makes a height carry too few records of either kind (no rates).
+	ForceUngraded map[uint32]bool
 }
 
 // DefaultMixedOpts is a busy but well-formed workload.
@@ -114,7 +116,7 @@ func NewMixed(e forge.Eras, seed int64, o MixedOpts, shortAvg uint64) *Mixed {
 	}
 	w := forge.NewWorld(e, seed, o.NMiners)
 	m := &Mixed{W: w, O: o, rng: rand.New(rand.NewSource(seed ^ 0x5eed)), byAddr: map[factom.FAAddress]forge.Key{},
-		At: map[uint32][]func(v *View, spec *forge.BlockSpec){}, ForceGraded: map[uint32]bool{}}
+		At: map[uint32][]func(v *View, spec *forge.BlockSpec){}, ForceGraded: map[uint32]bool{}, ForceUngraded: map[uint32]bool{}}
 	for i := 0; i < o.NUsers; i++ {
 		m.Users = append(m.Users, forge.NewKey(fmt.Sprintf("user-%d-%d", seed, i)))
 	}
@@ -207,6 +209,9 @@ func (m *Mixed) Next(v *View) forge.BlockSpec {
 	if m.ForceGraded[h] {
 		nOPR = 30
 	}
+	if m.ForceUngraded[h] {
+		nOPR = 4
+	}
 	if nOPR > 0 {
 		spec.OPR = m.W.StdOPRs(h, nOPR, m.W.Prices)
 	}
@@ -222,7 +227,10 @@ func (m *Mixed) Next(v *View) forge.BlockSpec {
 		if len(st) > 30 {
 			st = st[:30]
 		}
-		if len(st) > 0 && m.rng.Float64() > 0.05 {
+		if m.ForceUngraded[h] {
+			st = nil
+		}
+		if len(st) > 0 && (m.ForceGraded[h] || m.rng.Float64() > 0.05) {
 			spec.SPR = m.W.StdSPRs(h, st, m.W.Prices)
 		}
 	}
